@@ -1,0 +1,30 @@
+//go:build verif
+
+package method
+
+// Contracts for govc (contract-based deductive verification, see /verif/DESIGN.md).
+// This file contains comments only and is compiled only with the build tag `verif`.
+
+// C13: the verifier records exactly one error per unmet expectation, none for a met one, and never counts requests to
+// the proxy's own API; Verify reports nil iff nothing is recorded; Reset returns to the initial state.
+//@ pred methodVerifierOK(v *verifier) = v != nil && v.err != nil && merrIdle(v.err) && tableIdle()
+//@ func (*verifier).ModifyRequest
+//@   serves C13
+//@   requires methodVerifierOK(v) && req != nil
+//@   modifies v.err.errs, v.err.errs[*], v.err.mu.wheld, martian.ctxmu.rheld, sync.RWMutex.rheld
+//@   noframe
+//@   ensures[api-requests-never-counted] apiMarked(req) ==> len(v.err.errs) == old(len(v.err.errs))
+//@   ensures[met-expectation-records-nothing] v.method == "" || v.method == req.Method ==> len(v.err.errs) == old(len(v.err.errs))
+//@   ensures[unmet-expectation-records-exactly-one] !apiMarked(req) && v.method != "" && v.method != req.Method ==> len(v.err.errs) == old(len(v.err.errs)) + 1
+//@   ensures result == nil && methodVerifierOK(v)
+//@ func (*verifier).VerifyRequests
+//@   serves C13
+//@   requires methodVerifierOK(v)
+//@   modifies v.err.mu.rheld
+//@   ensures[nil-iff-nothing-recorded] (result == nil) == (len(v.err.errs) == 0)
+//@   ensures[reports-the-recorded-list] result != nil ==> result == v.err
+//@ func (*verifier).ResetRequestVerifications
+//@   serves C13
+//@   requires v != nil
+//@   modifies v.err
+//@   ensures[reset-forgets-everything] v.err != nil && len(v.err.errs) == 0 && merrIdle(v.err)
